@@ -133,6 +133,18 @@ def gen_case(rng, big):
         # whole-number bin edges handed over with an INTEGER type (np.arange / list of ints): same annuli, same values
         rb = [float(k) for k in range(0, len(rb))]
         rb_int = True
+    case = _gen_case_tail(rng, nx, ny, p_bad, vel, fmode, scale, rb, rb_int, bmode, zero_v)
+    # the unit of the velocity maps is the caller's (km/s, m/s, cm/s …): dispersions of a few hundred thousand are numbers
+    # like any other
+    vu = [1.0, 1.0, 1000.0, 1e5, 3.0][case["swap_seed"] % 5]
+    if vu != 1.0:
+        for key in ("disp", "vel"):
+            case[key] = [[x * vu for x in row] for row in case[key]]
+        case["u"] = case["u"] * vu
+    return case
+
+
+def _gen_case_tail(rng, nx, ny, p_bad, vel, fmode, scale, rb, rb_int, bmode, zero_v):
     return {
         "rbins_int": rb_int,
         "disp": gen_values(rng, nx, ny, rng.choice(["disp", "disp", "any"]), p_bad),
